@@ -708,7 +708,7 @@ static void c6_run_once(void)
 			spki_table_add_entry(&SPKI, &sr);
 		}
 	}
-	memset(SOCK, 0, sizeof(*SOCK));
+	memset(SOCK, 0xA5, sizeof(*SOCK)); /* rtr_init has to initialise every field itself */
 	rtr_init(SOCK, &ENV_TR, &PFX, &SPKI, 3600, 7200, 600, RTR_INTERVAL_MODE_IGNORE_ANY, NULL, NULL, NULL);
 	SOCK->session_id = 0x1234;
 	SOCK->request_session_id = true; /* after Cache Reset / session change */
